@@ -68,8 +68,20 @@ Proof. intro H. rewrite H. reflexivity. Qed.
 Lemma spec_kind_plain_iff (l : list (nat * bool)) : spec_kind l = KPlain <-> any_model l = false.
 Proof. unfold spec_kind. destruct (any_model l); split; intro H; try reflexivity; discriminate. Qed.
 
-Lemma leaves_nonempty (e : expr) : leaves e <> [].
-Proof. induction e as [j h|a IHa b IHb]; simpl; [discriminate|]. destruct (leaves a); [contradiction|discriminate]. Qed.
+Lemma spec_kind_not_free (l : list (nat * bool)) : spec_kind l <> KFree.
+Proof. unfold spec_kind. destruct (any_model l); discriminate. Qed.
+
+(* how `add` reduces when no operand is a FreeParameterAnalysis *)
+Lemma add_cc (c : cfg) (k k' : ckind) (its its' : list item) :
+  k <> KFree -> add c (VComb k its) (VComb k' its') = construct c k (its ++ its').
+Proof. intro H. destruct k; try reflexivity; contradiction. Qed.
+Lemma add_cs (c : cfg) (k : ckind) (its : list item) (j : nat) (h : bool) :
+  k <> KFree -> add c (VComb k its) (VSingle j h) = construct c k (its ++ [IPlain j h]).
+Proof. intro H. destruct k; try reflexivity; contradiction. Qed.
+Lemma add_sc (c : cfg) (k : ckind) (its : list item) (j : nat) (h : bool) :
+  k <> KFree -> add c (VSingle j h) (VComb k its)
+  = if fix_order c then construct c k (IPlain j h :: its) else construct c k (its ++ [IPlain j h]).
+Proof. intro H. destruct k; try reflexivity; contradiction. Qed.
 
 (* both operands combined *)
 Lemma add_comb_comb (c : cfg) (la lb : list (nat * bool)) :
@@ -119,32 +131,83 @@ Lemma add_single_single (c : cfg) (j j' : nat) (h h' : bool) :
   = VComb (spec_kind [(j, h); (j', h')]) (spec_items (spec_kind [(j, h); (j', h')]) [(j, h); (j', h')]).
 Proof. unfold construct, spec_kind, any_model. simpl. destruct h, h'; reflexivity. Qed.
 
-Theorem flatten_ok (c : cfg) (e : expr) : guard c e = true -> eval c e = spec_struct e.
+(* the structure a sum without with_free_parameters inside must have *)
+Definition sum_struct (e : expr) : aval :=
+  match e with
+  | Leaf j h => VSingle j h
+  | _ => VComb (spec_kind (leaves e)) (spec_items (spec_kind (leaves e)) (leaves e))
+  end.
+
+Lemma spec_struct_nofree (e : expr) : nofree e = true -> spec_struct e = sum_struct e.
+Proof. destruct e; simpl; intro H; [reflexivity| |discriminate]. rewrite H. reflexivity. Qed.
+
+Lemma flatten_sum (c : cfg) (e : expr) : nofree e = true -> guard c e = true -> eval c e = sum_struct e.
 Proof.
-  induction e as [j h|a IHa b IHb]; intro G; [reflexivity|].
+  induction e as [j h|a IHa b IHb|e IH]; intros N G; [reflexivity| |discriminate].
+  simpl in N. apply andb_true_iff in N. destruct N as [Na Nb].
   simpl in G. apply andb_true_iff in G. destruct G as [G Gn]. apply andb_true_iff in G. destruct G as [G Go].
   apply andb_true_iff in G. destruct G as [Ga Gb].
-  specialize (IHa Ga). specialize (IHb Gb).
+  specialize (IHa Na Ga). specialize (IHb Nb Gb).
   change (eval c (Add a b)) with (add c (eval c a) (eval c b)). rewrite IHa, IHb.
-  destruct a as [j h|a1 a2]; destruct b as [j' h'|b1 b2].
+  destruct a as [j h|a1 a2|a0]; destruct b as [j' h'|b1 b2|b0]; try discriminate.
   - simpl. apply add_single_single.
   - (* single + combined: needs the repaired operand order *)
-    simpl in Go. rewrite orb_false_r in Go. unfold spec_struct. simpl add. rewrite Go.
+    simpl in Go. rewrite orb_false_r in Go. unfold sum_struct.
+    rewrite add_sc by apply spec_kind_not_free. rewrite Go.
     change (leaves (Add (Leaf j h) (Add b1 b2))) with ((j, h) :: leaves (Add b1 b2)).
     apply add_single_comb.
-  - unfold spec_struct. simpl add.
+  - unfold sum_struct. rewrite add_cs by apply spec_kind_not_free.
     change (leaves (Add (Add a1 a2) (Leaf j' h'))) with (leaves (Add a1 a2) ++ [(j', h')]).
     apply add_comb_single.
-  - unfold spec_struct. simpl add.
+  - unfold sum_struct. rewrite add_cc by apply spec_kind_not_free.
     change (leaves (Add (Add a1 a2) (Add b1 b2))) with (leaves (Add a1 a2) ++ leaves (Add b1 b2)).
     apply add_comb_comb. simpl in Gn. rewrite !orb_false_r in Gn. exact Gn.
 Qed.
 
-Lemma guard_fixed (e : expr) : guard cfg_fixed e = true.
-Proof. induction e as [j h|a IHa b IHb]; simpl; [reflexivity|]. rewrite IHa, IHb. reflexivity. Qed.
+Theorem flatten_ok (c : cfg) (e : expr) : nofree e = true -> guard c e = true -> eval c e = spec_struct e.
+Proof. intros N G. rewrite (spec_struct_nofree e N). apply flatten_sum; assumption. Qed.
 
-Theorem flatten_fixed (e : expr) : eval cfg_fixed e = spec_struct e.
-Proof. apply flatten_ok, guard_fixed. Qed.
+Lemma guard_repaired (c : cfg) (e : expr) : fix_order c = true -> fix_new c = true -> guard c e = true.
+Proof.
+  intros O N. induction e as [j h|a IHa b IHb|e IH]; simpl; [reflexivity| |exact IH].
+  rewrite IHa, IHb, O, N. reflexivity.
+Qed.
+
+(* /repo as it stands (both repairs of `+` are in): every bracketing *)
+Theorem flatten_now (e : expr) : nofree e = true -> eval cfg_now e = spec_struct e.
+Proof. intro N. apply flatten_ok; [exact N|apply guard_repaired; reflexivity]. Qed.
+
+(* with_free_parameters re-wraps every member with index = position *)
+Lemma with_free_spec (k : ckind) (l : list (nat * bool)) :
+  with_free (VComb k (spec_items k l)) = VComb KFree (spec_items KFree l).
+Proof.
+  simpl. f_equal. apply reindex_same_strip. rewrite strip_spec_items, strip_plain. reflexivity.
+Qed.
+
+(* with_free_parameters on a finished sum (on a single analysis: AttributeError) *)
+Theorem flatten_free_top (c : cfg) (e : expr) :
+  nofree e = true -> guard c e = true -> eval c (Free e) = spec_struct (Free e).
+Proof.
+  intros N G. change (eval c (Free e)) with (with_free (eval c e)). rewrite (flatten_sum c e N G).
+  destruct e as [j h|a b|e0]; [reflexivity| |discriminate].
+  unfold spec_struct. rewrite N. unfold sum_struct. apply with_free_spec.
+Qed.
+
+(* adding to a free-parameter sum, or adding a single analysis to one, raises *)
+Lemma eval_free_kind (c : cfg) (e : expr) : eval c (Free e) = VErr \/ exists its, eval c (Free e) = VComb KFree its.
+Proof. simpl. destruct (eval c e); simpl; auto. right. eexists. reflexivity. Qed.
+
+Theorem free_left_raises (c : cfg) (e b : expr) : eval c (Add (Free e) b) = VErr.
+Proof.
+  change (eval c (Add (Free e) b)) with (add c (eval c (Free e)) (eval c b)).
+  destruct (eval_free_kind c e) as [H|[its H]]; rewrite H; [reflexivity|]. destruct (eval c b); reflexivity.
+Qed.
+
+Theorem single_plus_free_raises (c : cfg) (j : nat) (h : bool) (e : expr) : eval c (Add (Leaf j h) (Free e)) = VErr.
+Proof.
+  change (eval c (Add (Leaf j h) (Free e))) with (add c (VSingle j h) (eval c (Free e))).
+  destruct (eval_free_kind c e) as [H|[its H]]; rewrite H; reflexivity.
+Qed.
 
 (* what the specification says about members: written order, index = position *)
 Lemma reindex_nth (i k : nat) (l : list item) (it : item) :
@@ -164,9 +227,9 @@ Proof.
   destruct k; simpl; [exact P | rewrite (reindex_nth 0 i _ _ P); reflexivity ..].
 Qed.
 
-(* with_free_parameters re-wraps every member with index = position *)
-Lemma with_free_spec (c : cfg) (k : ckind) (l : list (nat * bool)) :
-  with_free c (VComb k (spec_items k l)) = VComb KFree (spec_items KFree l).
+Lemma spec_items_length (k : ckind) (l : list (nat * bool)) : length (spec_items k l) = length l.
 Proof.
-  simpl. f_equal. apply reindex_same_strip. rewrite strip_spec_items, strip_plain. reflexivity.
+  assert (R : forall i its, length (reindex_from i its) = length its).
+  { intros i its. revert i. induction its; intro i; simpl; auto. }
+  destruct k; simpl; unfold plain_items; rewrite ?R, map_length; reflexivity.
 Qed.
